@@ -345,8 +345,8 @@ Catalogue ==
   \cup {[op |-> "deleteColumnByColIdx", col |-> k] : k \in ColArgs}
   \cup {[op |-> "deleteColumn", name |-> n] : n \in NameArgs}
   \cup {[op |-> "deleteColumnsByLocator", t |-> t] : t \in Types}
-  \cup {[op |-> "deleteColumnsByUID", uids |-> p] : p \in DPairs(UidArgs)}
-  \cup {[op |-> "deleteColumnsByColIdx", cols |-> p] : p \in DPairs(ColArgs)}
+  \cup {[op |-> "deleteColumnsByUID", uids |-> p] : p \in Pairs(UidArgs)}   \* incl. a repeated uid
+  \cup {[op |-> "deleteColumnsByColIdx", cols |-> p] : p \in Pairs(ColArgs)}   \* incl. a repeated index
   \cup {[op |-> "setLocatorByUID", uid |-> u, t |-> t, r |-> r, clean |-> b] :
             u \in UidArgs, t \in RoleArgs, r \in RankArgs, b \in BOOLEAN}
   \cup {[op |-> "setLocatorByColIdx", col |-> k, t |-> t, r |-> r, clean |-> b] :
